@@ -5,10 +5,11 @@ import runlib as R
 ID = 'C13'
 COQ_TARGETS = ['Props/Properties_C13.vo']
 PROPS_FILES = ['Props/Properties_C13.v']
-THEOREMS = ['C13_exists', 'C13_exact', 'C13_confined', 'C13_bounce_line', 'C13_checker_sound', 'C13_model_passes_checker']
+THEOREMS = ['C13_exists', 'C13_exact', 'C13_confined', 'C13_bounce_line', 'C13_checker_sound', 'C13_model_passes_checker',
+            'C13_reply', 'C13_reply_exact', 'C13_model_passes_rcpt_checker']
 SHRINK_FROM = 3      # keep users/cdb and the domain of a failing case, shrink layout / bounce / local part / tail
 ENGINES = [dict(name='vpop', c_sources=['vpop_h.c'], extract='Extract/Extract_vpop.v', driver='vpop_driver.ml',
-                glue=('glue.ml', 'glue_z.ml'), accepts=lambda c: c.startswith('c1 '))]
+                glue=('glue.ml', 'glue_z.ml'), accepts=lambda c: c.startswith('c1 ') or c.startswith('c2 '))]
 RULE = ('cases = (users/cdb records, domain, domain directory layout, control/vpopbounce, local part, bytes following the local '
         'part in memory); layouts are derived from the local part: each documented form present / absent / present only under a '
         'near-miss name (dots not mapped, prefix cut one byte early or late, prefix reaching into the domain) / failing with an '
@@ -167,9 +168,38 @@ def gen_layout(rng, local, tail, bounce):
 DOMS = [b'example.org', b'my-dom.example', b'a-b-c.de', b'x.y', b'mail.ex-ample.org']
 
 
+UNQUOTED = set(b"abcdefghijklmnopqrstuvwxyzABCDEFGHIJKLMNOPQRSTUVWXYZ0123456789.!#$%&'*+-/=?^_`{|}~")
+
+
+def randcase(rng, b):
+    return bytes((c - 32) if (97 <= c <= 122 and rng.random() < 0.3) else c for c in b)
+
+
+def gen_rcpt(rng):
+    """c2: the real addrparse() on RCPT TO:<local@domain>; local part of characters that need no quoting"""
+    dom = rng.choice([d for d in DOMS if d != b'x.y'])      # "x.y" is no valid domain for addrsyntax (one-letter TLD)
+    for _ in range(50):
+        local = gen_local(rng)
+        if local and all(c in UNQUOTED for c in local):
+            break
+    else:
+        local = b'user'
+    local = randcase(rng, local)
+    k = rng.random()
+    if k < 0.85:
+        recs = [(rng.choice('dDmf'), d) for d in DOMS if d != dom and rng.random() < 0.3] + [(rng.choice('ddddddDmf'), dom)]
+        rng.shuffle(recs)
+    elif k < 0.95:
+        recs = [(rng.choice('dD'), d) for d in DOMS if d != dom]
+    else:
+        recs = rng.choice([None, 'e'])
+    bounce = rng.choice([None, b'/bounce\n', b'/bounce\n', b'|x\n'])
+    return case(recs, randcase(rng, dom), gen_layout(rng, local.lower(), b'@' + dom, bounce), bounce, local, b'').replace('c1 ', 'c2 ', 1)
+
+
 def gen_cases(engine, rng, tier):
     n = 2200 if tier == 'quick' else 40000
-    out = []
+    out = [gen_rcpt(rng) for _ in range(n // 4)]
     for i in range(n):
         dom = rng.choice(DOMS)
         local = gen_local(rng)
@@ -203,6 +233,8 @@ def _rc(c_out):
 
 def nontrivial(case, c_out):
     r = _rc(c_out)
+    if case.startswith('c2 '):
+        return r is not None and len(c_out.split()) >= 4
     return r is not None and ((r > 0 and r != 5) or len(c_out.split()) >= 5)
 
 
@@ -211,6 +243,8 @@ def distribution(results):
     for r in results:
         rc = _rc(r['c'])
         k = 'crash' if rc is None else ('rc%d' % rc if rc >= 0 else 'error')
+        if r['case'].startswith('c2 '):
+            k = 'rcpt_' + ('crash' if rc is None else {0: 'accepted', -1: 'refused550'}.get(rc, 'error'))
         d[k] = d.get(k, 0) + 1
         f = r['case'].split()
         if len(f) == 7:
